@@ -95,6 +95,14 @@ def gen_cases(ctx, n):
                             const_prob=rng.choice([0.0, 0.0, 0.3, 0.6]), int_prob=rng.choice([0.0, 0.2, 0.4]),
                             n_load=rng.choice([1, 2]), share_bias=rng.choice([0.0, 0.4]))
         cases.append(("random", st, D))
+    # collection-heavy expression trees (like terms / like bases over compound terms, nested)
+    for k in range(max(n // 2, 200)):
+        D = rng.choice([2, 3, 4])
+        tree = G.collect_tree(rng, D, with_div=rng.random() < 0.5, with_pow=rng.random() < 0.25, with_const=rng.random() < 0.25,
+                              depth=rng.choice([1, 2, 2, 3]))
+        st = G.tree_to_stack(tree, share=rng.random() < 0.7)
+        if len(st) <= 90:
+            cases.append(("collect", st, D))
     return cases
 
 
